@@ -96,7 +96,7 @@ fn interleavings(lens: &[usize], cap: usize) -> Vec<Vec<usize>> {
 
 // ---------------------------------------------------------------- listener recording
 
-#[derive(Clone, Debug)]
+#[derive(Clone, Debug, PartialEq, Eq)]
 enum LEv {
     Open(String, u64),
     Close(String, u64),
@@ -120,7 +120,7 @@ fn main() {
     let prop = Property {
         id: "C18",
         level: "exploration",
-        rule: "(isolation) 2-4 sessions (distinct TSIs on one endpoint, equal TSIs on distinct endpoints, with and without source address, endpoints differing only by source or port): ALL interleavings of their packet streams when the total is small, seeded merges otherwise; the per-session projection of the writer log must equal the log of the session pushed alone and carry the session's own endpoint and TSI; (filter) ALL sequences of {add, remove, add-all, remove-all} over 4 endpoints (2 groups x source/no source) x 2 TSIs and {set_tsi_filtering(false), set_tsi_filtering(true)} up to depth d (3 quick, 4 thorough; 24 operations), each followed by 8 probe packets, against a counter-map reference filter; (listeners) random scripts of data / close-session packets, cleanups after real sleeps, listeners added and removed mid-run, receiver dropped at a random point, judged by a per-(listener, session) automaton with the call in progress recorded for every event, plus an expiry-race stress (hundreds of sessions around a 2 ms timeout, cleanup in a tight loop); a case is one batch, non-trivial when callbacks were observed; distinct = batch parameters",
+        rule: "(isolation) 2-4 sessions (distinct TSIs on one endpoint, equal TSIs on distinct endpoints, with and without source address, endpoints differing only by source or port): ALL interleavings of their packet streams when the total is small, seeded merges otherwise; the per-session projection of the writer log must equal the log of the session pushed alone and carry the session's own endpoint and TSI; (filter) ALL sequences of {add, remove, add-all, remove-all} over 4 endpoints (2 groups x source/no source) x 2 TSIs and {set_tsi_filtering(false), set_tsi_filtering(true)} up to depth d (3 quick, 4 thorough; 24 operations), each followed by 8 probe packets, against a counter-map reference filter; (listeners) random scripts of data / close-session packets, cleanups after real sleeps, listeners added and removed mid-run, receiver dropped at a random point, judged by a per-(listener, session) automaton with the call in progress recorded for every event, (listener_registration) up to six listeners registered and removed in any order: what a listener registered during calls [a, r) sees must equal what the listener registered throughout saw during those calls; plus an expiry-race stress (hundreds of sessions around a 2 ms timeout, cleanup in a tight loop); a case is one batch, non-trivial when callbacks were observed; distinct = batch parameters",
         assumptions: vec![
             "ordering between different sessions' callbacks is free".into(),
             "a session may legitimately expire during any cleanup (loaded machine): only long sleeps (>= 10x the timeout) oblige expiry; the automaton never assumes non-expiry".into(),
@@ -412,6 +412,97 @@ fn main() {
                         cr.sample = Some(json!({"case": wit, "expected_processed": want, "processed": processed}));
                     }
                 }
+            }
+            cr
+        }));
+        // ------------------------------------------------------------ several listeners, registered and removed in any order
+        // One listener is registered first and never removed (the reference; its own event sequence is judged by the
+        // automaton of listener_scripts). Up to five others come and go at random calls, not last-in-first-out. What a
+        // listener registered during calls [a, r) sees must be exactly what the reference saw during those calls - a
+        // registration must never silence or replace another listener.
+        let nreg = ctx.tier.pick(3000usize, 100_000);
+        gens.push(Gen::new("listener_registration", nreg, move |ctx, i| {
+            let mut rng = Rng::keyed(ctx.seed, "C18reg", 0, i as u64);
+            let mut cr = CaseResult::default();
+            let nsess = rng.range(1, 4) as usize;
+            let sess: Vec<(UDPEndpoint, u64, Vec<Vec<u8>>)> = (0..nsess).map(|k| (ep(k % 4), 1 + (k as u64 / 2), mini_session(1 + (k as u64 / 2), Fec::NoCode, 40, 9))).collect();
+            let steps = rng.range(8, 40) as usize;
+            let r = util::guarded(|| {
+                let call = Rc::new(RefCell::new(0usize));
+                let (b, _wl) = MonBuilder::new(Script::default());
+                let mut rx = MultiReceiver::new(b, Some(RxConfig { object_timeout: None, session_timeout: None, ..Default::default() }), false);
+                let ref_log: Rc<RefCell<Vec<(usize, LEv)>>> = Rc::new(RefCell::new(vec![]));
+                rx.add_listener(RecListener { log: ref_log.clone(), call: call.clone() });
+                // (id returned, log, first call seen, first call no longer seen)
+                let mut regs: Vec<(u64, Rc<RefCell<Vec<(usize, LEv)>>>, usize, Option<usize>)> = vec![];
+                let mut ops: Vec<String> = vec![];
+                let mut next_pkt = vec![0usize; nsess];
+                for c in 0..steps {
+                    *call.borrow_mut() = c;
+                    let live: Vec<usize> = regs.iter().enumerate().filter(|(_, r)| r.3.is_none()).map(|(k, _)| k).collect();
+                    match rng.below(10) {
+                        0 | 1 if live.len() < 5 => {
+                            let log: Rc<RefCell<Vec<(usize, LEv)>>> = Rc::new(RefCell::new(vec![]));
+                            let id = rx.add_listener(RecListener { log: log.clone(), call: call.clone() });
+                            ops.push(format!("add_listener -> {}", id));
+                            regs.push((id, log, c + 1, None));
+                        }
+                        2 if !live.is_empty() => {
+                            let k = live[rng.below(live.len() as u64) as usize];
+                            rx.remove_listener(regs[k].0);
+                            ops.push(format!("remove_listener({})", regs[k].0));
+                            regs[k].3 = Some(c);
+                        }
+                        3 => {
+                            let s = rng.below(nsess as u64) as usize;
+                            let cs = flute::verif::new_alc_pkt_close_session(&0u128, sess[s].1);
+                            let _ = rx.push(&sess[s].0, &cs, util::at(1000));
+                            ops.push(format!("close-session packet {}", s));
+                        }
+                        _ => {
+                            let s = rng.below(nsess as u64) as usize;
+                            let k = next_pkt[s] % sess[s].2.len();
+                            next_pkt[s] += 1;
+                            let _ = rx.push(&sess[s].0, &sess[s].2[k], util::at(1000));
+                            ops.push(format!("data packet of session {}", s));
+                        }
+                    }
+                }
+                *call.borrow_mut() = steps;
+                ops.push("drop".into());
+                drop(rx);
+                let reference = ref_log.borrow().clone();
+                let others: Vec<(u64, Vec<(usize, LEv)>, usize, Option<usize>)> = regs.iter().map(|r| (r.0, r.1.borrow().clone(), r.2, r.3)).collect();
+                (reference, others, ops)
+            });
+            let (reference, others, ops) = match r {
+                Ok(x) => x,
+                Err(p) => {
+                    cr.violations.push(Violation::new("panic", format!("{} @ {}", p.msg, p.short_loc())).with("site", p.file()));
+                    return cr;
+                }
+            };
+            let ids: Vec<u64> = others.iter().map(|o| o.0).collect();
+            for (k, (id, got, from, until)) in others.iter().enumerate() {
+                let want: Vec<&(usize, LEv)> = reference.iter().filter(|(c, _)| *c >= *from && until.map(|u| *c < u).unwrap_or(true)).collect();
+                let got_r: Vec<&(usize, LEv)> = got.iter().collect();
+                if want != got_r {
+                    cr.violations.push(Violation::new("listener_events_differ", format!(
+                        "listener #{} (id {}, registered during calls [{}, {})) saw {} event(s), the listener registered throughout saw {} during those calls; ids handed out: {:?}",
+                        k, id, from, until.map(|u| u.to_string()).unwrap_or("end".into()), got.len(), want.len(), ids))
+                        .with("missing", got.len() < want.len()).with("duplicate_id", ids.iter().filter(|x| *x == id).count() > 1)
+                        .witness(json!({"calls": ops, "reference_events": format!("{:?}", reference), "listener_events": format!("{:?}", got), "ids": ids})));
+                    break;
+                }
+            }
+            cr.count("listener_events", reference.len() as u64 + others.iter().map(|o| o.1.len() as u64).sum::<u64>());
+            cr.count("listeners_registered", 1 + others.len() as u64);
+            if !reference.is_empty() && !others.is_empty() {
+                cr.shape = Some(util::fnv(&format!("reg|{}|{}|{}", nsess, others.len(), others.iter().filter(|o| o.3.is_some()).count())));
+            }
+            cr.states = vec![util::fnv(&format!("reg{}", others.len()))];
+            if i % 499 == 0 {
+                cr.sample = Some(json!({"calls": ops, "listeners": 1 + others.len(), "reference_events": reference.len()}));
             }
             cr
         }));
